@@ -341,6 +341,17 @@ func TestC11(t *testing.T) {
 				Amount: new(big.Int).Set(constants.SentinelZnnRegisterAmount), Data: definition.ABISentinel.PackMethodPanic(definition.RegisterSentinelMethodName)}, "setup: sentinel register")
 			h.Produce(0)
 			c.Class("setup-stake-and-sentinel")
+			if len(h.Users) > 2 && c.Bool("setup.secondSentinel") {
+				u2 := h.Users[2]
+				_, _ = h.Submit(&nom.AccountBlock{Address: u2, ToAddress: types.SentinelContract, TokenStandard: types.QsrTokenStandard,
+					Amount: new(big.Int).Set(constants.SentinelQsrDepositAmount), Data: definition.ABICommon.PackMethodPanic(definition.DepositQsrMethodName)}, "setup: second sentinel deposit")
+				h.Produce(0)
+				h.Produce(0)
+				_, _ = h.Submit(&nom.AccountBlock{Address: u2, ToAddress: types.SentinelContract, TokenStandard: types.ZnnTokenStandard,
+					Amount: new(big.Int).Set(constants.SentinelZnnRegisterAmount), Data: definition.ABISentinel.PackMethodPanic(definition.RegisterSentinelMethodName)}, "setup: second sentinel register")
+				h.Produce(0)
+				c.Class("setup-two-sentinels")
+			}
 		}
 		acts := map[string]func(){
 			"transfer": h.ActTransfer, "receive": h.ActReceive, "callABI": h.ActCallABI,
@@ -391,8 +402,12 @@ func TestC11(t *testing.T) {
 			},
 			// a pillar that has taken part in elections leaves in the middle of an epoch
 			"timedRevoke": func() {
-				if c.Weighted("c11.timedRevoke", 2, 1) == 1 {
+				switch c.Weighted("c11.timedRevoke", 2, 1, 2) {
+				case 1:
 					h.ActTimedPillarRevoke()
+				case 2:
+					// a sentinel leaves in the middle of an epoch (or between its end and its update)
+					h.ActTimedSentinelRevoke()
 				}
 			},
 			"skipFar": func() {
